@@ -68,6 +68,8 @@ PROPS = {
                 quick=['std-lax', 'std-strict'], thorough=list(CONFIGS)),
     'C17': dict(workload='C17', oracle=['C17'], project=proj_identity,
                 quick=['std-lax', 'std-strict'], thorough=list(CONFIGS)),
+    'C15': dict(workload='C15', oracle=['C15'], project=proj_identity,
+                quick=['std-lax'], thorough=['std-lax', 'nostd-lax']),
     'C16': dict(workload='C16', oracle=['C16'], project=proj_kind_msg,
                 quick=['std-lax', 'std-strict'], thorough=list(CONFIGS)),
 }
